@@ -171,6 +171,15 @@ impl HardwareBreakpoint {
         let mut state = HardwareDebugState::current(tracee_ctl.proc_pid())?;
         let register = self.register.expect("should exist");
         state.dr7.set_dr(register, false, false);
+        // Leave the freed slot in a neutral state (address 0, 1-byte length): the kernel
+        // validates a new address against the length the slot had before and a new
+        // length against the address it had before, so a stale (address, length) pair makes
+        // it reject a later watchpoint with another alignment in this slot, and that
+        // watchpoint would silently never be armed.
+        state.address_regs[register as usize] = 0;
+        state
+            .dr7
+            .configure_bp(register, BreakCondition::DataWrites, BreakSize::Bytes1);
         tracee_ctl.tracee_iter().for_each(|t| {
             if let Err(e) = state.sync(t.pid) {
                 error!("remove hardware breakpoint for thread {}: {e}", t.pid)
